@@ -25,9 +25,9 @@ type ConcJob struct {
 	Progs    [][]POp           `json:"progs"`
 	MaxRuns  int               `json:"maxRuns"`
 	Seed     int64             `json:"seed"`
-	Graph    bool              `json:"graph"`  // record the abstract state graph (MockImpl conformance)
+	Graph    bool              `json:"graph"`    // record the abstract state graph (MockImpl conformance)
 	AllGates bool              `json:"allGates"` // also preempt at locks and records of methods outside the scenario
-	Replay   [][]int           `json:"replay"` // explicit schedules (goroutine ids per step) instead of exploration
+	Replay   [][]int           `json:"replay"`   // explicit schedules (goroutine ids per step) instead of exploration
 }
 
 // AOp is an atomic operation on the abstract object, with its real-time interval.
@@ -51,26 +51,26 @@ type ConcHistory struct {
 }
 
 type ConcResult struct {
-	Mock       string         `json:"mock"`
-	Scenario   string         `json:"scenario"`
-	Runs       int            `json:"runs"`
-	Pruned     int            `json:"pruned"`
-	States     int            `json:"states"`
-	Steps      int            `json:"steps"`
-	Exhaustive bool           `json:"exhaustive"`
-	Histories  map[string]int `json:"histories"` // canonical history JSON -> number of runs
-	Races      []string       `json:"races"`
-	Deadlocks  int            `json:"deadlocks"`
-	DeadlockEx []string       `json:"deadlockEx"`
-	HeldAtCb   []string       `json:"heldAtCb"`
-	Fatal      []string       `json:"fatal"`
-	ForeignG   int            `json:"foreignG"`
-	Stale      []string       `json:"stale"`
-	WrongArgs  []string       `json:"wrongArgs"`
-	NilRec     bool           `json:"nilRec"`
-	Infra      string         `json:"infra,omitempty"`
-	GraphStates []string      `json:"graphStates,omitempty"`
-	graph      map[string]bool
+	Mock        string         `json:"mock"`
+	Scenario    string         `json:"scenario"`
+	Runs        int            `json:"runs"`
+	Pruned      int            `json:"pruned"`
+	States      int            `json:"states"`
+	Steps       int            `json:"steps"`
+	Exhaustive  bool           `json:"exhaustive"`
+	Histories   map[string]int `json:"histories"` // canonical history JSON -> number of runs
+	Races       []string       `json:"races"`
+	Deadlocks   int            `json:"deadlocks"`
+	DeadlockEx  []string       `json:"deadlockEx"`
+	HeldAtCb    []string       `json:"heldAtCb"`
+	Fatal       []string       `json:"fatal"`
+	ForeignG    int            `json:"foreignG"`
+	Stale       []string       `json:"stale"`
+	WrongArgs   []string       `json:"wrongArgs"`
+	NilRec      bool           `json:"nilRec"`
+	Infra       string         `json:"infra,omitempty"`
+	GraphStates []string       `json:"graphStates,omitempty"`
+	graph       map[string]bool
 }
 
 type concRunner struct {
@@ -83,21 +83,21 @@ type concRunner struct {
 	res    *ConcResult
 
 	// per run
-	mv      reflect.Value
-	s       *Sched
-	gen     *gen
-	fpID    map[string]map[string]int // real method -> record fingerprint -> id
-	anon    map[string]bool
-	ops     []*AOp
-	pending map[*G][]*AOp
-	realG   map[*G]int64
-	heldCb  map[string]bool
-	argsOf  map[int]string // call id -> fingerprint of the arguments passed
+	mv        reflect.Value
+	s         *Sched
+	gen       *gen
+	fpID      map[string]map[string]int // real method -> record fingerprint -> id
+	anon      map[string]bool
+	ops       []*AOp
+	pending   map[*G][]*AOp
+	realG     map[*G]int64
+	heldCb    map[string]bool
+	argsOf    map[int]string // call id -> fingerprint of the arguments passed
 	wrongArgs map[string]bool
-	foreign int
-	runFat  []string
-	snaps   []held
-	stale   map[string]bool
+	foreign   int
+	runFat    []string
+	snaps     []held
+	stale     map[string]bool
 }
 
 func recKey(fps []string) string { return "(" + strings.Join(fps, ",") + ")" }
